@@ -131,5 +131,125 @@ theorem end_tag_closed_form (t : Tokenizer) (disp : Bytes) (ok : Ok t) (he : t.e
   obtain ⟨p, d1, d2⟩ := this
   exact ⟨⟨p.token, p.rawS, p.rawE, p.err, p.rawTag.trans htag, p.cdata, p.buf⟩, d1, d2⟩
 
+/-! ### comments -/
+
+/-- the comment bodies covered by the closed form: no `>` and no `!` (the real terminators are `-->`, `--!>`,
+and an initial `>` / `->`; any body without `>` is fine for `-->`, and excluding `!` avoids `--!>`) -/
+def commentOK (body : Bytes) : Bool := body.all (fun b => b != 62 && b != 33)
+
+theorem commentGo_close (t : Tokenizer) (d : Nat) (h : Has t t.rawE [45, 45, 62]) (he : t.err = false) :
+    Stops t (commentGo t d) 3 ∧ (commentGo t d).dataS = t.dataS ∧ (commentGo t d).dataE = t.rawE := by
+  obtain ⟨e1, e2, e3, e4⟩ := read_known h.head he
+  have h2 : t.readByte.1.buf[t.readByte.1.rawE]? = some 45 := by rw [e4, e2]; exact h.tail.head
+  obtain ⟨f1, f2, f3, f4⟩ := read_known h2 e3
+  have h3 : t.readByte.1.readByte.1.buf[t.readByte.1.readByte.1.rawE]? = some 62 := by
+    rw [f4, e4, f2, e2]; exact h.tail.tail.head
+  obtain ⟨g1, g2, g3, g4⟩ := read_known h3 f3
+  rw [commentGo]
+  simp only [e3, e1, Bool.false_eq_true, dite_false, if_false, beq_self_eq_true, if_true]
+  rw [commentGo]
+  simp only [f3, f1, Bool.false_eq_true, dite_false, if_false, beq_self_eq_true, if_true]
+  rw [commentGo]
+  simp only [g3, g1, Bool.false_eq_true, dite_false, if_false, beq_self_eq_true, if_true,
+    show (62 == 45) = false by decide, show d + 1 + 1 ≥ 2 by omega, htmlCommentEndLen]
+  have s := setDataEndBack_spec t.readByte.1.readByte.1.readByte.1 3 (by omega)
+  exact ⟨⟨by rw [s.2]; omega, by rw [setDataEndBack_err, g3]⟩, by simp, by rw [s.1]; omega⟩
+
+theorem commentGo_run : ∀ (body : Bytes) (d : Nat) (t : Tokenizer), Has t t.rawE (body ++ [45, 45, 62]) →
+    commentOK body = true → t.err = false →
+    Stops t (commentGo t d) (body.length + 3) ∧ (commentGo t d).dataS = t.dataS ∧
+    (commentGo t d).dataE = t.rawE + body.length
+  | [], d, t, h, _, he => by simpa using commentGo_close t d h he
+  | b :: body, d, t, h, hb, he => by
+    obtain ⟨e1, e2, e3, e4⟩ := read_known h.head he
+    simp only [commentOK, List.all_cons, Bool.and_eq_true, bne_iff_ne, ne_eq] at hb
+    obtain ⟨⟨hb1, hb2⟩, hb3⟩ := hb
+    have hh : Has t.readByte.1 t.readByte.1.rawE (body ++ [45, 45, 62]) :=
+      ((h.tail).congr e4).at (by rw [e2])
+    have ih0 := commentGo_run body 0 t.readByte.1 hh hb3 e3
+    have ih1 := commentGo_run body (d + 1) t.readByte.1 hh hb3 e3
+    rw [commentGo]
+    simp only [e3, e1, Bool.false_eq_true, dite_false, if_false, show (b == 62) = false by simp [hb1],
+      show (b == 33) = false by simp [hb2]]
+    split
+    · obtain ⟨⟨r1, r2⟩, r3, r4⟩ := ih1
+      exact ⟨⟨by rw [r1, e2]; simp; omega, r2⟩, by rw [r3]; simp, by rw [r4, e2]; simp; omega⟩
+    · obtain ⟨⟨r1, r2⟩, r3, r4⟩ := ih0
+      exact ⟨⟨by rw [r1, e2]; simp; omega, r2⟩, by rw [r3]; simp, by rw [r4, e2]; simp; omega⟩
+
+theorem readComment_run (body : Bytes) (t : Tokenizer) (h : Has t t.rawE (body ++ [45, 45, 62]))
+    (hb : commentOK body = true) (he : t.err = false) :
+    Stops t (readComment t) (body.length + 3) ∧ (readComment t).dataS = t.rawE ∧
+    (readComment t).dataE = t.rawE + body.length := by
+  have r := commentGo_run body 2 { t with dataS := t.rawE } (h.congr rfl) hb he
+  obtain ⟨⟨r1, r2⟩, r3, r4⟩ := r
+  unfold readComment
+  simp only
+  rw [if_neg (by rw [r3, r4]; show ¬ t.rawE + body.length < t.rawE; omega)]
+  exact ⟨⟨r1, r2⟩, r3, r4⟩
+
+/-- the main loop on `<!--body-->` -/
+theorem mainLoop_comment (T : Tokenizer) (body : Bytes) (ok : Ok T) (he : T.err = false) (hrs : T.rawS = T.rawE)
+    (hb : commentOK body = true) (h : Has T T.rawE ([60, 33, 45, 45] ++ body ++ [45, 45, 62])) :
+    PieceM T (mainLoop T) .comment ([60, 33, 45, 45] ++ body ++ [45, 45, 62]).length ∧
+    (mainLoop T).dataS = T.rawE + 4 ∧ (mainLoop T).dataE = T.rawE + 4 + body.length := by
+  have hx : [60, 33, 45, 45] ++ body ++ [45, 45, 62] = 60 :: 33 :: 45 :: 45 :: (body ++ [45, 45, 62]) := by simp
+  rw [hx] at h ⊢
+  obtain ⟨hml, o⟩ := mainLoop_dispatch T 33 ok he
+    (fun i hi => by have := h i (by simp at hi ⊢; omega); rw [this]; match i, hi with | 0, _ => rfl | 1, _ => rfl)
+    (by decide)
+  generalize opened2 T = S at *
+  let S' : Tokenizer := { S with dataS := S.rawE }
+  have okS' : Ok S' := ⟨o.ok.le, o.ok.panic, o.ok.hang, o.ok.utf8⟩
+  have hS1 : S'.buf[S'.rawE]? = some 45 := by
+    show S.buf[S.rawE]? = _; rw [o.buf, o.rawE]; exact h.tail.tail.head
+  obtain ⟨e1, e2, e3, e4⟩ := read_known hS1 o.err
+  have hS2 : S'.readByte.1.buf[S'.readByte.1.rawE]? = some 45 := by
+    rw [e4, e2]; show S.buf[S.rawE + 1]? = _; rw [o.buf, o.rawE]; exact h.tail.tail.tail.head
+  obtain ⟨f1, f2, f3, f4⟩ := read_known hS2 e3
+  have a1 := readByte_adv okS'
+  have a2 := readByte_adv a1.ok
+  have hbody : Has S'.readByte.1.readByte.1 S'.readByte.1.readByte.1.rawE (body ++ [45, 45, 62]) := by
+    have : Has T (T.rawE + 4) (body ++ [45, 45, 62]) := (h.tail.tail.tail.tail).at (by omega)
+    refine (this.congr (f4.trans (e4.trans ?_))).at ?_
+    · exact o.buf
+    · rw [f2, e2]; show S.rawE + 1 + 1 = _; rw [o.rawE]
+  obtain ⟨⟨r1, r2⟩, r3, r4⟩ := readComment_run body _ hbody hb f3
+  have a3 := readComment_adv S'.readByte.1.readByte.1 a2.ok (by rw [f2, e2]; show 3 ≤ S.rawE + 1 + 1; omega)
+  have a13 := (a1.trans a2).trans a3
+  have hmd : S.readMarkupDeclaration = (S'.readByte.1.readByte.1.readComment, TokenType.comment) := by
+    unfold readMarkupDeclaration markupGo
+    simp only
+    rw [if_neg (by rw [e3]; exact Bool.false_ne_true), if_neg (by rw [f3]; exact Bool.false_ne_true),
+      if_pos (by rw [e1, f1]; decide)]
+  rw [hml]
+  unfold dispatchTag
+  simp only [htmlTagOpenLen]
+  rw [if_neg (by rw [o.rawE]; omega), if_neg (by rw [o.rawS, o.rawE, hrs]; omega)]
+  rw [if_neg (by decide : ¬ isAlpha 33 = true), if_neg (by decide : ¬ (33 == 47) = true), if_pos (by decide)]
+  try simp only []
+  rw [hmd]
+  have hlen : (60 :: 33 :: 45 :: 45 :: (body ++ [45, 45, 62])).length = 4 + (body.length + 3) := by simp; omega
+  have hre : S'.readByte.1.readByte.1.rawE = T.rawE + 4 := by
+    rw [f2, e2]; show S.rawE + 1 + 1 = _; rw [o.rawE]
+  refine ⟨⟨rfl, by show (readComment _).rawS = _; rw [a13.rawS]; exact o.rawS,
+    by show (readComment _).rawE = _; rw [r1, hre, hlen]; omega,
+    r2, by show (readComment _).rawTag = _; rw [a13.rawTag]; exact o.rawTag,
+    by show (readComment _).allowCdata = _; rw [a13.cdata]; exact o.cdata,
+    by show (readComment _).buf = _; rw [a13.buf]; exact o.buf⟩, ?_, ?_⟩
+  · show (readComment _).dataS = _; rw [r3, hre]
+  · show (readComment _).dataE = _; rw [r4, hre]
+
+/-- **closed form of `next` on a comment `<!--body-->`** followed by anything -/
+theorem comment_closed_form (t : Tokenizer) (body : Bytes) (ok : Ok t) (he : t.err = false) (htag : t.rawTag = [])
+    (hb : commentOK body = true) (h : Has t t.rawE ([60, 33, 45, 45] ++ body ++ [45, 45, 62])) :
+    Piece t (next t) .comment ([60, 33, 45, 45] ++ body ++ [45, 45, 62]).length [] ∧
+    (next t).dataS = t.rawE + 4 ∧ (next t).dataE = t.rawE + 4 + body.length := by
+  rw [next_mainLoop t he htag]
+  have := mainLoop_comment { ({ t with rawS := t.rawE, dataS := t.rawE, dataE := t.rawE } : Tokenizer) with
+      textIsRaw := false, convertNull := false } body ⟨ok.le, ok.panic, ok.hang, ok.utf8⟩ he rfl hb (h.congr rfl)
+  obtain ⟨p, d1, d2⟩ := this
+  exact ⟨⟨p.token, p.rawS, p.rawE, p.err, p.rawTag.trans htag, p.cdata, p.buf⟩, d1, d2⟩
+
 end Tokenizer
 end Rio.Html
